@@ -69,20 +69,16 @@ Theorem C09_ci_untouched : forall s sort_opt count,
 Proof. exact clean_ci_readonly. Qed.
 Print Assumptions C09_ci_untouched.
 
-(* only unaddressed files whose name contains ".snap", directly inside a visited directory,
-   are ever reported obsolete (and hence removed) *)
-Theorem C09_only_snap_files : forall dir paths standalone names acc,
-  let f := fun acc name =>
-            if negb (contains snaps_ext name) then acc else
-            let p := join2 dir name in
-            if mem_bytes p paths then {| fr_obsolete := fr_obsolete acc; fr_used := fr_used acc ++ [p] |}
-            else if mem_bytes p standalone then acc
-            else {| fr_obsolete := fr_obsolete acc ++ [p]; fr_used := fr_used acc |} in
-  forall p, In p (fr_obsolete (fold_left f names acc)) ->
-  In p (fr_obsolete acc) \/
-  exists name, In name names /\ contains snaps_ext name = true /\ p = join2 dir name /\
-               mem_bytes p paths = false /\ mem_bytes p standalone = false.
-Proof. exact examine_files_inner_snap. Qed.
+(* only unaddressed files whose name contains ".snap", directly inside a visited directory, are ever reported obsolete
+   (and hence removed): stated about examine_files itself *)
+Theorem C09_only_snap_files : forall fs cleanup standalone p,
+  In p (fr_obsolete (examine_files fs cleanup standalone)) ->
+  contains snaps_ext (base_part p) = true /\ noslash (base_part p) /\
+  ((exists q, In q (registry_paths cleanup) /\ dirname p = dirname q) \/
+   (exists q, In q standalone /\ dirname p = dirname q)) /\
+  ~ In p (registry_paths cleanup) /\ ~ In p standalone /\
+  (dirname p <> [dot] -> p = (dir_pre (dirname p) ++ base_part p)%list /\ In p (map fst fs)).
+Proof. exact reported_file_sound. Qed.
 Print Assumptions C09_only_snap_files.
 
 Example C09_example :
